@@ -89,6 +89,13 @@ def run(R):
         for a in acts:
             f = action_func(repo, a)
             summaries[a] = ansifsm.summarise_action(f)
+            for ln_, early_, full_ in ansifsm.early_exit_imbalance(f):
+                if early_ != full_:
+                    c.bad(f, f.node, 'the action %s leaves early under a condition (L%d) after changing the parameter stack by %+d where the full path changes it by %+d: '
+                          'the next state is the same either way, so the stack is out of step with the parser (a later handler pops the wrong entry)' % (a, ln_, early_, full_),
+                          kind='fsm', tag='early-exit:%s' % a)
+                else:
+                    raise AnalysisError('%s: a conditional exit between stack operations (L%d): not modelled' % (f.qual, ln_))
         stacks, findings = ansifsm.fixpoint(t, summaries)
         R.extra['abstract_stacks'] = dict((k, sorted(' '.join(s) for s in v)) for k, v in stacks.items())
         msgs = {'underflow': 'pops the parser stack below the screen object (IndexError / the screen itself is consumed)',
